@@ -311,7 +311,7 @@ def gen_param(rng, name, depth=2, writable_p=0.6, kinds=None):
     return p
 
 
-def gen_module_spec(rng, name, depth=2, nparams=None, full=False):
+def gen_module_spec(rng, name, depth=2, nparams=None, full=False, constants='simple'):
     base = rng.choice(['Module', 'Readable', 'Writable', 'Drivable'])
     spec = {'name': name, 'base': base, 'export': True, 'params': [], 'cmds': [],
             'pollinterval': rng.choice([0.5, 1.0, 3.0])}
@@ -332,7 +332,7 @@ def gen_module_spec(rng, name, depth=2, nparams=None, full=False):
         p = gen_param(rng, f'p{i}', depth)
         if full:
             r = rng.random()
-            if r < 0.12:
+            if r < 0.12 and (constants == 'all' or p['di']['type'] in ('double', 'int', 'bool', 'string', 'enum')):
                 p['constant'] = p['default']
                 p['read'] = p['write'] = False
             elif r < 0.24:
